@@ -435,11 +435,20 @@ func (r *resolver) FindFileByPath(path string) (protoreflect.FileDescriptor, err
 			return nil, err
 		}
 
+		// A server may answer with files it has sent before, or that were
+		// loaded up front (the dependencies of the requested file come along
+		// with every answer of some implementations): keep the one we have.
+		if file, err := r.files.FindFileByPath(fdp.GetName()); err == nil {
+			if file.Path() == path {
+				f = file
+			}
+			continue
+		}
+
 		file, err := protodesc.NewFile(fdp, r)
 		if err != nil {
 			return nil, err
 		}
-		// TODO: check duplicate file registry
 		if err := r.files.RegisterFile(file); err != nil {
 			return nil, err
 		}
